@@ -92,12 +92,24 @@ func (p *c16) structRT(rec *core.Recorder, r *core.Rand, tier string) {
 	var data []byte
 	var back *twig.CompiledTemplate
 	var err error
+	// the serialised bytes belong to the caller: other serialisations in between (same goroutine, pooled buffers) must
+	// leave them as they were
+	var kept []byte
 	panicked, site, val, stack := core.Guard(func() {
 		data, err = twig.SerializeCompiledTemplate(ct)
 		if err == nil {
+			kept = bytes.Clone(data)
+			for _, n := range []int{10, len(ct.Source), 70000} {
+				twig.SerializeCompiledTemplate(&twig.CompiledTemplate{Name: "other", Source: strings.Repeat("Z", n), LastModified: 7, CompileTime: 8})
+			}
 			back, err = twig.DeserializeCompiledTemplate(data)
 		}
 	})
+	rec.Count("bytes-held-across-other-serialisations", 1)
+	if !panicked && err == nil && !bytes.Equal(kept, data) {
+		rec.Violate("roundtrip", "serialised-bytes-overwritten", "the bytes returned by SerializeCompiledTemplate changed when other templates were serialised afterwards", cs, "")
+		return
+	}
 	if panicked {
 		rec.Violate("panic", "panic@"+site, "serialise/deserialise panicked: "+val, cs, stack)
 		return
